@@ -32,9 +32,9 @@ try:
         # demos hard-code their own worktree path sometimes: run them with cwd = worktree and PYTHONPATH = worktree
         txt = open(demo).read()
         import re
-        txt2 = re.sub(r"/tmp/seedwork[23456789]?/C\d+/wt", wt, txt)
+        txt2 = re.sub(r"/tmp/seedwork(?:[2-9]|10)?/C\d+/wt", wt, txt)
         open(scratch + "/demo_mut.py", "w").write(txt2)
-        open(scratch + "/demo_base.py", "w").write(re.sub(r"/tmp/seedwork[23456789]?/C\d+/wt", "/repo", txt))
+        open(scratch + "/demo_base.py", "w").write(re.sub(r"/tmp/seedwork(?:[2-9]|10)?/C\d+/wt", "/repo", txt))
         a = subprocess.run(["/venv/bin/python", scratch + "/demo_mut.py"], cwd=wt, env=env, capture_output=True, text=True, timeout=900)
         b = subprocess.run(["/venv/bin/python", scratch + "/demo_base.py"], cwd="/repo", env=dict(os.environ, PYTHONPATH="/repo", MPLBACKEND="agg"), capture_output=True, text=True, timeout=900)
         meta["demo_with_change_rc"] = a.returncode
